@@ -65,6 +65,12 @@ HOSTILE_CONTENT = BOMS + [b + b'\n' for b in BOMS] + \
     b'[' * 5000 + b']' * 5000 + b'\n',
     b'{"a":' * 3000 + b'1' + b'}' * 3000 + b'\n',
     b'[' * 200000 + b'\n',
+    # first line CRLF, last line bare LF
+    b'a\r\nb\n', b'{\r\n"a": 1}\n', b'x\r\n\n',
+    # a raw control character in a string, then nesting beyond any limit
+    b'{"a": "x\x01y", "b": ' + b'[' * 5000 + b']' * 5000 + b'}\n',
+    b'{"a": "tab\there", "b": ' + b'{"k":' * 3000 + b'1' + b'}' * 3000 +
+    b'}\n',
     # one object repeating a key, with values of different types
     b'{"a": {}, "a": {}}\n', b'{"a": 1, "a": "x"}\n',
     b'{"a": null, "a": 1, "b": [], "b": {}}\n',
